@@ -44,13 +44,19 @@ impl SpanningRay {
     }
 }
 
+/// Margin, as a fraction of the edge length, by which a crossing may lie beyond the ends of an edge
+const EDGE_MARGIN: f64 = 1.0e-10;
+
 pub fn ray_intersect_with_edge(line: &Polyline, ray: &Ray, edge_index: usize) -> Option<f64> {
     let v0 = line.vertices()[edge_index];
     let v1 = line.vertices()[edge_index + 1];
     let dir = v1 - v0;
     let edge_ray = Ray::new(v0, dir);
     if let Some((t0, t1)) = intersect_rays(ray, &edge_ray) {
-        if (0.0..=1.0).contains(&t1) {
+        // A line through a vertex is computed to leave one edge a few ulps after its end and to
+        // enter the next one a few ulps before its start. Without a margin both edges reject the
+        // crossing and it is lost; with it both report it and the duplicate is merged later.
+        if (-EDGE_MARGIN..=1.0 + EDGE_MARGIN).contains(&t1) {
             Some(t0)
         } else {
             None
@@ -170,6 +176,10 @@ fn cast_ray(bv: &SimdAabb, ray: &SimdRay) -> (SimdBool, SimdReal) {
     let one = SimdReal::splat(1.0);
     let infinity = SimdReal::splat(f64::MAX);
 
+    // The boxes are widened by the margin the edge test allows beyond the ends of an edge, so that
+    // an edge which reports a crossing is never pruned here
+    let margin = (bv.maxs - bv.mins) * SimdReal::splat(EDGE_MARGIN);
+
     let mut hit = SimdBool::splat(true);
     let mut tmin = SimdReal::splat(f64::MIN);
     let mut tmax = SimdReal::splat(f64::MAX);
@@ -177,13 +187,14 @@ fn cast_ray(bv: &SimdAabb, ray: &SimdRay) -> (SimdBool, SimdReal) {
     // TODO: could this be optimized more considering we really just need a boolean answer?
     for i in 0usize..DIM {
         let is_not_zero = ray.dir[i].simd_ne(zero);
-        let is_zero_test = ray.origin[i].simd_ge(bv.mins[i]) & ray.origin[i].simd_le(bv.maxs[i]);
+        let is_zero_test = ray.origin[i].simd_ge(bv.mins[i] - margin[i])
+            & ray.origin[i].simd_le(bv.maxs[i] + margin[i]);
         let is_not_zero_test = {
             let denom = one / ray.dir[i];
             let mut inter_with_near_plane =
-                ((bv.mins[i] - ray.origin[i]) * denom).select(is_not_zero, -infinity);
+                ((bv.mins[i] - margin[i] - ray.origin[i]) * denom).select(is_not_zero, -infinity);
             let mut inter_with_far_plane =
-                ((bv.maxs[i] - ray.origin[i]) * denom).select(is_not_zero, infinity);
+                ((bv.maxs[i] + margin[i] - ray.origin[i]) * denom).select(is_not_zero, infinity);
 
             let gt = inter_with_near_plane.simd_gt(inter_with_far_plane);
             simd_swap(gt, &mut inter_with_near_plane, &mut inter_with_far_plane);
